@@ -150,13 +150,13 @@ def _extra(prog, res, ops, final, extra):
 
 def run_shard(spec):
     boot.boot(lock_shim=True)
-    t0 = time.time()
+    t0 = conc.clock()
     out = {"evaluations": 0, "keys": [], "violations": [], "samples": [], "counters": {}, "strata": {}}
     keys = set()
     c = out["counters"]
     sites = set()
     for i in range(spec["start"], spec["start"] + spec["count"]):
-        if time.time() - t0 > BUDGET[spec["tier"]]:
+        if conc.clock() - t0 > BUDGET[spec["tier"]]:
             c["budget_cut_programs"] = c.get("budget_cut_programs", 0) + 1
             continue
         prog, meta, r = make_prog(spec, i)
